@@ -297,10 +297,15 @@ def parse_module(path):
             if m and not m.group(2).startswith(("alias", "ifunc")):
                 globs[m.group(1)] = m.group(2)
                 continue
-            m = re.match(r"^define (.*?)@([\w.$]+)\((.*)\)[^()]*\{$", line)
+            m = re.match(r"^define (.*?)@([\w.$]+)\(", line) if line.endswith("{") else None
             if m:
+                depth, j = 1, m.end()
+                while j < len(line) and depth:
+                    depth += {"(": 1, ")": -1}.get(line[j], 0)
+                    j += 1
+                plist = line[m.end() : j - 1]
                 params = []
-                for p in split_top(m.group(3)):
+                for p in split_top(plist):
                     toks = p.split()
                     params.append(toks[-1] if toks and toks[-1].startswith("%") else None)
                 pre = strip_attrs(m.group(1))
@@ -331,6 +336,9 @@ def parse_module(path):
                 i += 1
             s += " ]"
             i += 1
+        if s.startswith("to label"):
+            cur.blocks[label][-1].text += " " + re.sub(r", ![\w.]+ ![\w]+", "", s)
+            continue
         if s.startswith(("cleanup", "catch ", "filter ")):
             # continuation of a landingpad
             cur.blocks[label][-1].text += " " + s
@@ -472,6 +480,7 @@ class Machine:
         self.extern_syms = {}
         self.calls = []  # names of external calls served by stubs
         self.cut_edges = {}  # (fn, pred, block) -> tag  (region mode)
+        self.region_exits = []  # (pathcond, tag, pred, snapshot)
         self.size_cache = {}
         self.depth = 0
 
@@ -547,6 +556,8 @@ class Machine:
         size = st.objsize(p.obj)
         if size is None:
             size = self.global_size(p.obj)
+        if size is None and ("@" in p.obj or p.obj.startswith(("opaque!", "ext:"))):
+            size = 1 << 20  # target of a pointer that was itself read from unconstrained memory
         if size is None:
             raise Inconclusive(f"unknown object {p.obj}")
         if p.off < 0 or p.off + n > size:
@@ -835,6 +846,47 @@ class Machine:
         self.cfg_cache[fn.name] = (ip, succ)
         return ip, succ
 
+    def loops(self, fn):
+        """natural loops: list of (header, set(latches), set(body blocks))"""
+        ip, succ = self.cfg(fn)
+        nodes = list(fn.blocks)
+        pred = {n: set() for n in nodes}
+        for b in nodes:
+            for s_ in succ[b]:
+                if s_ != "$exit":
+                    pred[s_].add(b)
+        dom = {n: set(nodes) for n in nodes}
+        dom[fn.entry] = {fn.entry}
+        changed = True
+        while changed:
+            changed = False
+            for n in nodes:
+                if n == fn.entry:
+                    continue
+                ps = [dom[p_] for p_ in pred[n]]
+                new = (set.intersection(*ps) if ps else set()) | {n}
+                if new != dom[n]:
+                    dom[n] = new
+                    changed = True
+        out = {}
+        for u in nodes:
+            for h in succ[u]:
+                if h != "$exit" and h in dom[u]:
+                    body = {h, u}
+                    work = [u]
+                    while work:
+                        x = work.pop()
+                        if x == h:
+                            continue
+                        for p_ in pred[x]:
+                            if p_ not in body:
+                                body.add(p_)
+                                work.append(p_)
+                    e = out.setdefault(h, (set(), set()))
+                    e[0].add(u)
+                    e[1].update(body)
+        return [(h, l, b) for h, (l, b) in out.items()]
+
     # ---------------------------------------------------------------- execution
     def call(self, st, name, args, argtys=None):
         if name in self.stubs:
@@ -870,7 +922,7 @@ class Machine:
                 raise Inconclusive(f"phi without incoming {pred} in {block}")
         st.env.update(newv)
 
-    def run_until(self, fn, fr, st, block, pred, stop):
+    def run_until(self, fn, fr, st, block, pred, stop, phis_done=False):
         """Execute from `block` (entered from `pred`) until the first arrival at
         `stop`; phis of `stop` are evaluated for the arriving edge.  Mutates and
         returns `st`; second result is the return value when stop == '$exit'."""
@@ -879,13 +931,31 @@ class Machine:
         if self.depth > 3000:
             raise Inconclusive("branch nesting too deep (symbolic loop?)")
         try:
-            phis_done = False
             while True:
                 if block != "$exit" and not phis_done:
                     tag = self.cut_edges.get((fn.name, pred, block))
                     if tag is not None:
-                        # region mode: a cut back edge is a pseudo-return
-                        return st, ("$cut", tag, pred)
+                        # region mode: a cut back edge is a pseudo-return; freeze what the
+                        # target's phis and the memory look like on that edge
+                        phi = {}
+                        for I in fn.blocks[block]:
+                            if I.op != "phi":
+                                break
+                            m = re.match(r"phi (.*?) (\[.*)$", I.text)
+                            for v, l in re.findall(r"\[ (.+?), %([\w.$-]+) \]", m.group(2)):
+                                if l == pred:
+                                    try:
+                                        phi[I.res] = self.val(st, fr, m.group(1), v)
+                                    except Inconclusive:
+                                        phi[I.res] = None
+                        objs = set()
+                        s_ = st
+                        while s_ is not None:
+                            objs.update(s_.mem)
+                            s_ = s_.parent
+                        snap = {"mem": {o: st.cells(o) for o in objs}, "phi": phi}
+                        self.region_exits.append((st.pathcond(), tag, pred, snap))
+                        return st, CUT
                     self.eval_phis(fn, fr, st, block, pred)
                 phis_done = False
                 if block == stop:
@@ -917,14 +987,28 @@ class Machine:
                         sb = State(st, z3.Not(c))
                         _, ra = self.run_until(fn, fr, sa, lt, block, P)
                         _, rb = self.run_until(fn, fr, sb, lf, block, P)
-                        self.merge_into(st, c, sa, sb)
+                        if (ra is CUT) != (rb is CUT):
+                            # one side left through a cut edge: the continuation is the live side
+                            live, g = (sb, z3.Not(c)) if ra is CUT else (sa, c)
+                            st.env.update(live.env)
+                            for o, cells in live.mem.items():
+                                for off, v in cells.items():
+                                    st.store(o, off, v)
+                            st.size.update(sa.size)
+                            st.size.update(sb.size)
+                            st.log.extend((z3.And(g, gg), e) for gg, e in live.log)
+                            st.pc = st.pc + [g]
+                        else:
+                            self.merge_into(st, c, sa, sb)
                         self.merges += 1
                         if P == "$exit":
                             if stop != "$exit":
                                 raise Inconclusive("exit inside region")
                             return st, self.merge_ret(c, ra, rb)
-                        if ra is not None or rb is not None:
-                            raise Inconclusive("cut edge inside merged region")
+                        if ra is CUT and rb is CUT:
+                            return st, CUT
+                        if (ra is not None and ra is not CUT) or (rb is not None and rb is not CUT):
+                            raise Inconclusive("early return inside merged region")
                         nxt = (None, P)
                         phis_done = True
                         break
@@ -936,9 +1020,11 @@ class Machine:
             self.depth -= 1
 
     def merge_ret(self, c, ra, rb):
-        cut_a = isinstance(ra, tuple) and ra and ra[0] == "$cut"
-        cut_b = isinstance(rb, tuple) and rb and rb[0] == "$cut"
-        if cut_a or cut_b or isinstance(ra, RetSet) or isinstance(rb, RetSet):
+        if ra is CUT:
+            return rb
+        if rb is CUT:
+            return ra
+        if isinstance(ra, (RetSet, Throw)) or isinstance(rb, (RetSet, Throw)):
             return RetSet.join(c, ra, rb)
         return merge_val(c, ra, rb)
 
@@ -1053,7 +1139,7 @@ class Machine:
             if is_sym(v):
                 if m.group(3) == "i1":
                     v = (v % 2) == 1
-                else:
+                elif not getattr(self, "trunc_identity", False):
                     raise Inconclusive("trunc of symbolic integer")
             else:
                 bits = int(m.group(3)[1:])
@@ -1167,12 +1253,21 @@ class Machine:
             m = re.match(r"(?:call|invoke) (.*?)(@[\w.$]+|%[\w.$-]+)\((.*)\)(?:\s+to label %([\w.$-]+) unwind label %([\w.$-]+))?\s*$", t)
             if not m:
                 raise Inconclusive(f"call syntax: {t[:100]}")
-            I.cache = (m.group(2), split_top(m.group(3)) if m.group(3).strip() else [], m.group(4), m.group(5))
-        callee, argtoks, normal, unwind = I.cache
+            I.cache = (m.group(2), split_top(m.group(3)) if m.group(3).strip() else [], m.group(4), m.group(5), strip_attrs(m.group(1)))
+        callee, argtoks, normal, unwind, rettype = I.cache
         if callee.startswith("%"):
             target = st.get((fr, callee))
             if isinstance(target, Ptr) and target.obj.startswith("global:@"):
                 name = target.obj[8:]
+            elif getattr(self, "opaque_indirect", False):
+                # virtual call through an unknown object (e.g. e.what()): opaque result
+                self.fresh += 1
+                rt = re.sub(r"\(.*$", "", rettype).strip()
+                if I.res:
+                    st.env[(fr, I.res)] = Ptr(f"opaque!{self.fresh}", 0) if rt.endswith("*") else (z3.Real(f"opaque!{self.fresh}") if rt == "double" else z3.Int(f"opaque!{self.fresh}"))
+                    if rt.endswith("*"):
+                        st.size[f"opaque!{self.fresh}"] = 1 << 20
+                return ("goto", normal) if normal else None
             else:
                 raise Inconclusive("indirect call")
         else:
@@ -1351,6 +1446,14 @@ class Machine:
         hook = self.store_hooks.get(p.obj) if hasattr(self, "store_hooks") else None
         if hook:
             hook(st, p, v)
+
+
+class _Cut:
+    def __repr__(self):
+        return "CUT"
+
+
+CUT = _Cut()
 
 
 class Throw:
